@@ -83,6 +83,61 @@ vals["default_server_connection_drop_timeout_ms_client"] = ms("serverConnectionD
 if vals["bucket_ms_server"] != vals["bucket_ms_client"]:
     raise ValueError("server and client factories use different batched-timer buckets")
 
+# --- which close codes onCloseFrame accepts from the peer -------------------------------------------------------
+# The acceptance test is an expression in the source, not a table: take the test of the FIRST `if` of onCloseFrame with
+# the interpreter's own parser, require the shape  `code is not None and (<predicate over code>)`, compile <predicate>
+# unchanged and evaluate it for every 16-bit code (what fits into a close frame) and some larger values.  The model gets
+# the maximal intervals on which the code is NOT rejected.  Anything of another shape: fail closed.
+import ast, inspect, textwrap
+_src = textwrap.dedent(inspect.getsource(WP.onCloseFrame))
+_fn = ast.parse(_src).body[0]
+if not isinstance(_fn, ast.FunctionDef) or _fn.name != "onCloseFrame" or [a.arg for a in _fn.args.args][:3] != ["self", "code", "reasonRaw"]:
+    raise ValueError("onCloseFrame: unexpected signature")
+_ifs = [n for n in _fn.body if isinstance(n, ast.If)]
+if not _ifs:
+    raise ValueError("onCloseFrame: no if statement")
+_t = _ifs[0].test
+if not (isinstance(_t, ast.BoolOp) and isinstance(_t.op, ast.And) and len(_t.values) == 2):
+    raise ValueError("onCloseFrame: first test is not `code is not None and (...)`")
+_g = _t.values[0]
+if not (isinstance(_g, ast.Compare) and isinstance(_g.left, ast.Name) and _g.left.id == "code" and len(_g.ops) == 1
+        and isinstance(_g.ops[0], ast.IsNot) and isinstance(_g.comparators[0], ast.Constant) and _g.comparators[0].value is None):
+    raise ValueError("onCloseFrame: first test does not start with `code is not None`")
+_names = {n.id for n in ast.walk(_t.values[1]) if isinstance(n, ast.Name)}
+if not _names <= {"code", "WebSocketProtocol"}:
+    raise ValueError(f"onCloseFrame: close-code predicate mentions {_names}")
+for n in ast.walk(_t.values[1]):
+    if isinstance(n, (ast.Call, ast.Lambda, ast.Await, ast.NamedExpr, ast.Subscript)):
+        raise ValueError("onCloseFrame: close-code predicate is not a plain comparison expression")
+_body = _ifs[0].body
+if not (_body and isinstance(_body[0], ast.If) and "_protocol_violation" in ast.dump(_body[0].test)):
+    raise ValueError("onCloseFrame: the rejected-code branch does not call _protocol_violation")
+_code_obj = compile(ast.Expression(_t.values[1]), "<onCloseFrame close-code predicate>", "eval")
+
+
+def _rejected(code):
+    r = eval(_code_obj, {"__builtins__": {}, "WebSocketProtocol": WP, "code": code})
+    if type(r) is not bool:
+        raise ValueError("close-code predicate is not boolean")
+    return r
+
+
+ranges, start = [], None
+for code in range(0, 65536):
+    ok = not _rejected(code)
+    if ok and start is None:
+        start = code
+    if not ok and start is not None:
+        ranges.append((start, code - 1)); start = None
+if start is not None:
+    raise ValueError("close code 65535 is accepted: the accepted set is not bounded by the 16-bit range as the model assumes")
+for big in (65536, 70000, 10 ** 6, 2 ** 31, 2 ** 63):
+    if not _rejected(big):
+        raise ValueError(f"close code {big} is accepted")
+if not ranges:
+    raise ValueError("no close code is accepted")
+vals["close_code_valid_ranges"] = ranges
+
 # the batched timer's quantisation formula is control flow in txaio (modelled by hand in Model/WsConn.v: quant);
 # pin the version-sensitive facts it relies on by probing the real object on a fake clock
 import txaio._common as C
@@ -106,9 +161,11 @@ def b(v):
 L = ["(* GENERATED by translators/wsconn_consts.py from the imported autobahn.websocket.protocol -- do not edit. *)",
      "From Coq Require Import NArith List Bool.", "Import ListNotations.", "Open Scope N_scope.", ""]
 L.append("Definition close_codes_allowed : list N := [%s]." % "; ".join(str(c) for c in vals["close_codes_allowed"]))
+L.append("(* maximal intervals of close codes that onCloseFrame does not reject (its own predicate, evaluated for 0..65535; >= 65536 rejected) *)")
+L.append("Definition close_code_valid_ranges : list (N * N) := [%s]." % "; ".join(f"({a}, {b})" for a, b in vals["close_code_valid_ranges"]))
 for k in sorted(vals):
     v = vals[k]
-    if k == "close_codes_allowed":
+    if k in ("close_codes_allowed", "close_code_valid_ranges"):
         continue
     if type(v) is bool:
         L.append(f"Definition {k} : bool := {b(v)}.")
